@@ -607,9 +607,12 @@ where
             }
 
             if do_stream {
-                let runners_empty = runners.is_empty();
-
                 loop {
+                    // Has to be looked at on every turn: once the last
+                    // runner has terminated, next() returns None right away
+                    // and this loop would spin until the connection is there.
+                    let runners_empty = runners.is_empty();
+
                     tokio::select! {
                         res_conn = stream_fut.as_mut() => {
                             do_stream = false;
